@@ -35,26 +35,34 @@ type env struct {
 	kind   string
 	store  func() appencryption.Metastore
 	suffix string
+	// legacy: the same key table as seen by a deployment that does not suffix its key ids (the state a
+	// deployment is in while it moves to region suffixes: its older records name un-suffixed keys)
+	legacy func() appencryption.Metastore
 }
 
 func regions() []string { return []string{"us-west-2", "eu-central-1", "ap-southeast-2"} }
 
 func drawEnv(t *rapid.T) env {
-	kind := rapid.SampledFrom([]string{"plain", "suffixed-store", "suffixed-store", "dynamodb-v1-suffix", "dynamodb-v2-suffix", "dynamodb-v2-plain"}).Draw(t, "store")
+	kind := rapid.SampledFrom([]string{"plain", "suffixed-store", "suffixed-store", "suffixed-store-with-unsuffixed-records", "dynamodb-v1-suffix", "dynamodb-v2-suffix", "dynamodb-v2-plain"}).Draw(t, "store")
 	region := rapid.SampledFrom(regions()).Draw(t, "region")
 	switch kind {
 	case "plain":
 		st := kit.NewStore(&kit.CallLog{})
-		return env{kind, func() appencryption.Metastore { return st }, ""}
+		return env{kind, func() appencryption.Metastore { return st }, "", nil}
 	case "suffixed-store":
 		st := kit.NewStore(&kit.CallLog{})
 		st.Suffix = region
-		return env{kind, func() appencryption.Metastore { return st }, region}
+		return env{kind, func() appencryption.Metastore { return st }, region, nil}
+	case "suffixed-store-with-unsuffixed-records":
+		st := kit.NewStore(&kit.CallLog{})
+		st.Suffix = region
+		st.SuffixFor = map[string]string{"legacy": ""}
+		return env{kind, func() appencryption.Metastore { return st }, region, func() appencryption.Metastore { return st.For("legacy") }}
 	case "dynamodb-v1-suffix":
 		d := fakes.NewDynamo("EncryptionKey", region)
 		sess := session.Must(session.NewSession(&aws.Config{Region: aws.String(region)}))
 		ms := v1persistence.NewDynamoDBMetastore(sess, v1persistence.WithClient(fakes.DynamoV1{D: d}), v1persistence.WithDynamoDBRegionSuffix(true))
-		return env{kind, func() appencryption.Metastore { return ms }, region}
+		return env{kind, func() appencryption.Metastore { return ms }, region, nil}
 	default:
 		d := fakes.NewDynamo("EncryptionKey", region)
 		on := kind == "dynamodb-v2-suffix"
@@ -66,7 +74,7 @@ func drawEnv(t *rapid.T) env {
 		if on {
 			s = region
 		}
-		return env{kind, func() appencryption.Metastore { return ms }, s}
+		return env{kind, func() appencryption.Metastore { return ms }, s, nil}
 	}
 }
 
@@ -268,6 +276,57 @@ func TestPairs(t *testing.T) {
 			s.Close()
 			if err != nil || !bytes.Equal(out, c.pay) {
 				bad("partition %q cannot decrypt its own record: %v", c.part, err)
+			}
+		}
+		if e.legacy != nil {
+			// records both partitions wrote before the deployment turned region suffixes on: they name un-suffixed keys,
+			// which a suffixed session accepts for ITS OWN partition only
+			fl := appencryption.NewSessionFactory(&appencryption.Config{Service: service, Product: product, Policy: appencryption.NewCryptoPolicy()}, e.legacy(), k, aead.NewAES256GCM(), appencryption.WithSecretFactory(secrets))
+			defer fl.Close()
+			encL := func(part string, payload []byte) *appencryption.DataRowRecord {
+				s, err := fl.GetSession(part)
+				if err != nil {
+					t.Fatalf("GetSession(%q) without suffix: %v", part, err)
+				}
+				defer s.Close()
+				r, err := s.Encrypt(ctx, payload)
+				if err != nil {
+					t.Fatalf("encrypt for %q without suffix: %v", part, err)
+				}
+				return r
+			}
+			// the underscore-joined scheme itself cannot tell "reader's key in region T" from "owner's un-suffixed key"
+			// when the latter reads <reader's un-suffixed id>_T: such pairs are not judged (see DESIGN 7.5)
+			ambiguous := func(reader, owner string) bool {
+				tail, ok := strings.CutPrefix(kit.RefIKID(owner, service, product, ""), kit.RefIKID(reader, service, product, "")+"_")
+				return ok && tail != "" && !strings.Contains(tail, "_")
+			}
+			for _, c := range []struct {
+				reader, owner string
+				rec           *appencryption.DataRowRecord
+				pay           []byte
+			}{{p, q, encL(q, payQ), payQ}, {q, p, encL(p, payP), payP}} {
+				if ambiguous(c.reader, c.owner) {
+					kit.Rec.Label("unsuffixed-record:format-ambiguous-pair-skipped")
+					continue
+				}
+				s, err := f.GetSession(c.reader)
+				if err != nil {
+					t.Fatalf("GetSession(%q): %v", c.reader, err)
+				}
+				out, err := s.Decrypt(ctx, *c.rec)
+				s.Close()
+				if err == nil {
+					bad("a region-suffixed session for partition %q decrypted a record that partition %q wrote before suffixes were turned on (key id %q); returned bytes equal %q's payload: %v",
+						c.reader, c.owner, c.rec.Key.ParentKeyMeta.ID, c.owner, bytes.Equal(out, c.pay))
+				}
+				// not vacuous: the owner's suffixed session does read it
+				if so, err := f.GetSession(c.owner); err == nil {
+					if out, err := so.Decrypt(ctx, *c.rec); err == nil && bytes.Equal(out, c.pay) {
+						kit.Rec.Label("unsuffixed-record:owner-reads-it")
+					}
+					so.Close()
+				}
 			}
 		}
 		idP, idQ := recP.Key.ParentKeyMeta.ID, recQ.Key.ParentKeyMeta.ID
